@@ -51,6 +51,46 @@ ALT_ERRNO = {'os.open': errno.EEXIST, 'os.link': errno.EMLINK, 'os.rename': errn
 LISTED_STEPS = {'os.open', 'os.fdopen', 'os.chmod', 'os.fchmod', 'file.write', 'file.writelines', 'file.flush', 'os.fsync',
                 'os.fdatasync', 'file.close', 'os.rename', 'os.replace', 'os.link', 'open'}
 UNLINK_CALLS = {'os.unlink', 'os.remove'}
+PUBLISH_CALLS = {'os.rename', 'os.replace', 'os.link'}
+PROBE_CALLS = {'os.stat', 'os.lstat'}
+# round 5: errno values on which file-system code is known to BRANCH ("no hard links here", "other device", "try again",
+# "read-only", "exists", "gone" ...) - each of them is a behaviour class of its own at every call; the first ones are the
+# "this file system cannot do it: try another way" class.  Names missing on the platform are skipped, equal values merged.
+ERRNO_CLASS_NAMES = ['EPERM', 'ENOTSUP', 'EOPNOTSUPP', 'ENOSYS', 'EXDEV', 'EMLINK', 'EACCES', 'EROFS', 'EEXIST', 'ENOENT',
+                     'EINTR', 'EAGAIN', 'EWOULDBLOCK', 'EBUSY', 'ENOSPC', 'EDQUOT', 'EIO', 'ENOTDIR', 'EISDIR', 'ELOOP',
+                     'ENAMETOOLONG', 'EINVAL', 'EBADF', 'ETXTBSY', 'ENOTEMPTY', 'ENOMEM', 'EMFILE', 'ENFILE', 'EFBIG',
+                     'ESTALE', 'ENOLCK', 'ETIMEDOUT', 'ENODEV', 'ENOTTY', 'ESPIPE', 'EDEADLK', 'ECANCELED', 'ENXIO']
+TRY_ANOTHER_WAY = ['EPERM', 'ENOTSUP', 'EOPNOTSUPP', 'ENOSYS', 'EXDEV', 'EMLINK', 'EACCES', 'EROFS']
+
+
+def errno_values(names):
+    out = []
+    for n in names:
+        v = getattr(errno, n, None)
+        if isinstance(v, int) and v not in out:
+            out.append(v)
+    return out
+
+
+_SRC_ERRNOS = []
+
+
+def source_errnos():
+    """errno names the CURRENT boltons/fileutils.py mentions anywhere - as `errno.X` or as a string ('EPERM' in a table
+    looked up with getattr): the values its code can tell apart come first in every errno family"""
+    if not _SRC_ERRNOS:
+        names = []
+        try:
+            import re
+            import boltons.fileutils as fu
+            with open(fu.__file__.replace('.pyc', '.py'), encoding='utf-8') as fh:
+                for n in re.findall(r'\bE[A-Z0-9]{2,14}\b', fh.read()):
+                    if isinstance(getattr(errno, n, None), int) and n not in names:
+                        names.append(n)
+        except Exception:
+            pass
+        _SRC_ERRNOS.append(names)
+    return _SRC_ERRNOS[0]
 
 # A plan action >= 1000 makes the call raise an exception that is NOT an errno-carrying OSError.  The Lean
 # model treats an error as an opaque number (`Errno = Nat`), exactly as the code must (`except Exception`):
@@ -86,6 +126,49 @@ BODY_EXC = {1: BodyError, 2: KeyboardInterrupt, 3: SystemExit, 4: GeneratorExit,
 
 def hx(b):
     return b.hex() if b else '-'
+
+
+class Flag:
+    """an option value that is only a truth value: `bool(x)` says what it means, `==` claims equality with everything
+    (True, False, None, 0 ...), `is` matches nothing"""
+
+    def __init__(self, v):
+        self.v = bool(v)
+
+    def __bool__(self):
+        return self.v
+
+    def __eq__(self, other):
+        return True
+
+    def __ne__(self, other):
+        return True
+
+    def __hash__(self):
+        return 0
+
+    def __repr__(self):
+        return 'Flag(%r)' % self.v
+
+
+# argument / call forms of a save (round 5) - none of them changes what the save must do:
+#   kwform 1: all four flags passed explicitly as ints 0/1 (also those equal to the default); 2: as Flag objects
+#   api 1:    the AtomicSaver class called directly instead of atomic_save()
+#   proto 1:  no `with`: saver.setup(), the block on saver.part_file, saver.__exit__(exc_type, exc, tb) by hand (documented)
+#   pathform 1: the destination as a pathlib.Path; 2: with redundant components (dir/./x, dir//x); 3: dir/sub/../x
+FORM_KEYS = ('kwform', 'api', 'proto', 'pathform')
+
+
+def dest_arg(dest, pathform):
+    d, n = os.path.split(dest)
+    if pathform == 1:
+        import pathlib
+        return pathlib.Path(dest)
+    if pathform == 2:
+        return d + '/.//' + n
+    if pathform == 3:
+        return d + '/no-such-dir/../' + n
+    return dest
 
 
 _SCRATCH = []
@@ -372,6 +455,17 @@ class C05(Property):
             "writer's file with another mode, the process umask changed, a foreign part file appearing / removed - x file_perms explicit / None x text / binary x "
             'overwrite x first use completing / block raising / a call failing x every single fault position of a LATER save; each save is judged '
             'with the state IT starts from (measured just before it). '
+            'ROUND 5: errno values as BEHAVIOUR CLASSES - the errno names the current source mentions (as errno.X or as a string) first, '
+            'then a family of 38 values code is known to branch on (EPERM / ENOTSUP / EOPNOTSUPP / ENOSYS / EXDEV / EMLINK / EACCES / EROFS ... ; at the '
+            'publishing call every errno the platform knows) at every call; where the run after such a fault differs from the run after '
+            "the site's ordinary errno (other calls, other outcome: the code took another way) - and always at the publishing call (link / rename / "
+            'replace) - the destination created by another process at EVERY later call boundary and just before the call, and a second fault at every '
+            'later call; generated first with overwrite=False. Histories in which an EARLIER use (same object, second object, fresh one) or a call of the '
+            'module-level helpers atomic_rename / replace / _atomic_rename by somebody else on unrelated files (each argument form; succeeding, failing '
+            "with such an errno, failing because the target exists) precedes a save during which the destination appears at each call boundary. "
+            'The other ways of saying the same save: flags as ints / as objects that only have a truth value, AtomicSaver called directly, '
+            'setup() / part_file / __exit__() by hand, the destination as pathlib.Path / with redundant components; a part_file that names the destination '
+            'itself (oracle only); writes at 255..257 / 8191..8193 / 16384 bytes. '
             'Non-trivial = the save did not complete (some call failed, the body raised, or it was refused); '
             'distinct = distinct (configuration, initial state, body, plan).')
     ASSUMPTIONS = ['faults are injected by replacing boltons.fileutils.os and wrapping the part file object: an injected '
@@ -504,15 +598,94 @@ class C05(Property):
         memo[self.key(case)] = obs
         return obs['first'].get('log', [])
 
+    # ------------------------------------------------------------------ round 5: errno values as behaviour classes
+    def run_sig(self, case):
+        """what a run looks like from outside: the calls made, whether the caller saw an exception, whether it published"""
+        obs = self.run_case(case)
+        memo = self.__dict__.setdefault('_memo', {})
+        if len(memo) > 64:
+            memo.clear()
+        memo[self.key(case)] = obs
+        o = obs['first']
+        return o.get('log', []), (o['out'] == 'ok', bool(o.get('pub')))
+
+    def errno_classes(self, base, sites=None, errnos=None, always=PUBLISH_CALLS, second=True):
+        """errno values are BEHAVIOUR CLASSES: code branches on them ("no hard links here: fall back on ...", "other device:
+        copy instead", "interrupted: again").  For every call k of the fault-free run (restricted to the call names `sites`
+        when given) and every errno e of the family: the single fault [k, e]; and when the run that follows differs from the
+        run after the site's ordinary errno (other calls, other outcome: the code took ANOTHER WAY) - or always, at the
+        publishing calls - the interleavings of that other way: the destination created by another process at EVERY later call
+        boundary (a check-then-act window is one call wide), at the boundary just before k, and a second fault at every later call."""
+        c0 = dict(base, plan=[])
+        calls = self.learn_calls(c0)
+        raws = self.__dict__['_memo'][self.key(c0)]['first'].get('raw') or []
+        fam = errnos if errnos is not None else errno_values(source_errnos() + ERRNO_CLASS_NAMES)
+        for k, name in enumerate(calls):
+            if sites is not None and name not in sites:
+                continue
+            # a call on the destination alone (stat / lstat / access / a read-only open of it ...) is a PROBE of the file to replace
+            dest_probe = name in PROBE_CALLS or (k < len(raws) and raws[k].split(';')[1:2] == ['d'])
+            e0 = SITE_ERRNO.get(name, errno.EIO)
+            ref_calls, ref_out = self.run_sig(dict(base, plan=[[k, e0]]))
+            for e in fam:
+                if e == errno.ENOENT and dest_probe:
+                    continue        # a probe answering "no such file" is not a failure (and a lie when the file is there)
+                c1 = dict(base, plan=[[k, e]])
+                calls_e, out_e = self.run_sig(c1)
+                other_way = (calls_e[k + 1:] != ref_calls[k + 1:]) or out_e != ref_out
+                if not (other_way or name in always):
+                    yield c1
+                    continue
+                for j in range(k + 1, len(calls_e)):
+                    yield dict(base, plan=[[k, e], [j, 'A']])
+                yield c1
+                if k:
+                    yield dict(base, plan=[[k - 1, 'A'], [k, e]])
+                if second and other_way:
+                    for j in range(k + 1, len(calls_e)):
+                        yield dict(base, plan=[[k, e], [j, SITE_ERRNO.get(calls_e[j], errno.EIO)]])
+                        yield dict(base, plan=[[k, e], [j, e]])
+
+    def errno_family(self, full, stage):
+        mk = self.mk
+        taw = errno_values(source_errnos() + TRY_ANOTHER_WAY)
+        if stage == 0:
+            # the publishing call (link / rename / replace) failing with each "cannot do it here" errno, the destination
+            # appearing at every call boundary after it: overwrite=False first (no-clobber must survive every fallback)
+            for ow, dm, owp, pm in ((0, None, 0, None), (1, 0o644, 0, None), (0, None, 1, 0o640), (1, None, 0, None)):
+                for c in self.errno_classes(mk(ow=ow, dm=dm, owp=owp, pm=pm), sites=PUBLISH_CALLS, errnos=taw):
+                    yield c
+            return
+        # every call x the whole family
+        allv = sorted(errno.errorcode) if full else None
+        for ow, dm, perms, txt in ((0, None, None, 0), (1, 0o600, None, 0), (1, None, 0o640, 1), (0, None, 0o600, 1)):
+            for c in self.errno_classes(mk(ow=ow, dm=dm, perms=perms, txt=txt), errnos=allv):
+                yield c
+        # ... of a save whose block raised (only the cleanup may differ) and of a save that leaves its part file on purpose
+        for c in self.errno_classes(mk(ow=0, dm=None, raises=1), errnos=taw, always=()):
+            yield c
+        for c in self.errno_classes(mk(ow=0, dm=None, rm=0), errnos=taw):
+            yield c
+        # every errno the platform knows at the publishing call
+        for ow, dm in ((0, None), (1, 0o644)):
+            for c in self.errno_classes(mk(ow=ow, dm=dm, umask=0o077), sites=PUBLISH_CALLS, errnos=sorted(errno.errorcode)):
+                yield c
+
     def small_families(self, full):
         """small, diverse, adversarial: generated FIRST so that a slow machine (budget cut) never loses them"""
         mk, script = self.mk, self.script
+        # 0. (round 5) errno classes at the publishing call x interference at every later call boundary
+        for c in self.errno_family(full, 0):
+            yield c
         # 1. an explicit file_perms of 0 (a fully locked-down file) is a request like any other, not "none given"
         for ow, dm, um in itertools.product((1, 0), (None, 0o644, 0o600), (0o022, 0)):
             for c in self.with_plans(mk(ow=ow, perms=0, umask=um, dm=dm), appear=False):
                 yield c
         # 10. HISTORIES: one long-lived AtomicSaver object, several saves, the world changes in between
         for c in self.history_family(full):
+            yield c
+        # 11. (round 5) every call x the errno family; where an errno makes the code take another way, its interleavings
+        for c in self.errno_family(full, 1):
             yield c
         # 2. what the with-block does besides writing (closes the file itself, writes after closing, flushes)
         #    x how it ends, with every single fault; then the ways a block can raise
@@ -566,10 +739,31 @@ class C05(Property):
                 for c in self.with_plans(mk(ow=ow, dm=dm, perms=perms, rm=rm, raises=raises, cloexec=1), appear=False,
                                          codes=(1001, 1002), pairs=(ow == 1 and rm == 1 and not raises)):
                     yield c
-        # 8. a write larger than any buffer
+        # 12. (round 5) the other ways of saying the same save: flags as ints / as objects that only have a truth value (and an
+        #     `==` that agrees with everything), the AtomicSaver class called directly, setup() / part_file / __exit__() by hand
+        #     instead of `with`, the destination as a pathlib.Path / with redundant path components - x every single fault
+        forms = [dict(kwform=1), dict(kwform=2), dict(api=1), dict(proto=1), dict(pathform=1), dict(pathform=2), dict(pathform=3),
+                 dict(kwform=2, api=1, proto=1, pathform=1), dict(kwform=1, proto=1, reuse=1), dict(kwform=2, reuse=2, pathform=2)]
+        cfgs = [mk(ow=1, dm=0o644), mk(ow=0, dm=None), mk(ow=0, dm=0o600), mk(owp=1, pm=0o640, dm=0o600), mk(owp=0, pm=0o640),
+                mk(rm=0, raises=1), mk(txt=1, perms=0o640), mk(ow=0, owp=1, rm=0, txt=1, raises=2)]
+        for fi, fm in enumerate(forms):
+            for ci, cfg in enumerate(cfgs):
+                if full or fi < 4 or (fi + ci) % 2 == 0:
+                    for c in self.with_plans(dict(cfg, **fm), appear=(cfg['ow'] == 0 and cfg['dest'] is None)):
+                        yield c
+        # 13. (round 5) identity coincidences: a part_file that IS the destination (as such, via ./, via sub/../): refused or
+        #     worked around, but the destination is never created empty / written in place / unlinked by overwrite_part
+        for pf in (DEST, './' + DEST, 'sub/../' + DEST, '../@DIR@/' + DEST):
+            for ow, owp, dm, raises in itertools.product((1, 0), (0, 1), (None, 0o644), (0, 1)):
+                yield mk(ow=ow, owp=owp, dm=dm, raises=raises, pf=pf, plan=[])
+        # 8. a write larger than any buffer; writes at the buffer size and one byte off it, a buffering argument equal to the data
         big = (bytes(range(48, 112)) * 400).hex()
         for c in self.with_plans(mk(dm=0o644, writes=('4e45', big)), appear=False):
             yield c
+        for n, buf in ((8191, None), (8192, None), (8193, None), (16384, None), (8192, 8192), (255, 256), (256, 256), (257, 256)):
+            extra = {} if buf is None else {'buf': buf}
+            for c in self.with_plans(mk(dm=0o600, writes=((b'%d|' % n + b'z' * n)[:n].hex(), '21'), **extra), appear=False):
+                yield c
 
     ENV_MOVES = [['c', 0o600], ['c', 0o664], ['d'], ['p', 0o640, b'OTHER-WRITER'.hex()], ['u', 0o027], ['c', 0o755],
                  ['p', 0o444, '-'], ['u', 0]]
@@ -621,6 +815,34 @@ class C05(Property):
             if ow:
                 yield dict(base, raises=1, hist=[stale, sv(2), sv(3, raises=1), ['Q'], sv(4)])
                 yield dict(base, hist=[stale, sv(2, plan=[[0, errno.EIO]]), ['Q'], stale, sv(3), ['Q'], sv(4)])
+        # g. (round 5) what an EARLIER use learned about the file system must not weaken a later one: a use whose publishing
+        #    call failed with a "cannot do it here" errno (on the same object, on a second object, on a fresh one), then
+        #    a save during which the destination appears at each call boundary / whose publishing call fails the ordinary way
+        taw = errno_values(source_errnos() + TRY_ANOTHER_WAY)
+        for ow, dm in ((0, None), (1, 0o644)):
+            base = mk(ow=ow, dm=dm, plan=[])
+            calls = self.learn_calls(base)
+            ks = [k for k, name in enumerate(calls) if name in PUBLISH_CALLS]
+            for k in ks[:1]:
+                for ei, e in enumerate(taw if full else taw[:5]):
+                    for who in (0, 'n', 1):
+                        if not full and who == 1 and ei > 1:
+                            continue
+                        first = dict(base, plan=[[k, e]], alt={})
+                        for j in (range(len(calls)) if (ow == 0 and (full or who == 0 or ei < 2)) else ()):
+                            yield dict(first, hist=[sv(2, who=who, plan=[[j, 'A']])])
+                        yield dict(first, hist=[sv(2, who=who), ['d'], sv(3, who=who, plan=[[k, SITE_ERRNO[calls[k]]]]), sv(4, who=who)])
+        # h. (round 5) the module-level helpers called by somebody else between the uses - every argument form, succeeding,
+        #    failing with a "cannot do it here" errno, failing because the target exists - then saves that meet interference
+        helper = [(0, 0), (1, 0), (2, 0), (3, 0), (4, 0), (0, 'x'), (2, 'x')] + [(fm, e) for e in taw[:4] for fm in (0, 2, 1)]
+        for hi, (fm, fault) in enumerate(helper):
+            for ow in (0, 1):
+                base = mk(ow=ow, dm=None if ow == 0 else 0o644, plan=[])
+                ncalls = len(self.learn_calls(base))
+                yield dict(base, hist=[['r', fm, fault], sv(2), ['d'], ['r', fm, fault], sv(3, who='n')])
+                if ow == 0:
+                    for j in (range(ncalls) if (full or hi % 3 == 0) else (ncalls - 2, ncalls - 1)):
+                        yield dict(base, hist=[['d'], ['r', fm, fault], sv(2, who=hi % 2 and 'n' or 0, plan=[[j, 'A']])])
         # e. every single fault position of the SECOND save of a history (and of the third)
         sel = [(mk(dm=0o644, plan=[]), moves[0]), (mk(dm=None, plan=[]), moves[4]), (mk(dm=0o600, perms=0o640, plan=[]), moves[2]),
                (mk(ow=0, dm=None, plan=[]), moves[2]), (mk(dm=0o644, txt=1, plan=[]), moves[3])]
@@ -648,12 +870,13 @@ class C05(Property):
                 mv = rng.choice(self.ENV_MOVES + [['c', rng.choice([0o400, 0o640, 0o666, 0o1644, 0o777, 0])],
                                                   ['u', rng.choice([0o022, 0o077, 0o002])],
                                                   ['p', rng.choice([0o600, 0o644, 0o660]), bytes([rng.randrange(65, 91)] * rng.choice([1, 5])).hex()]])
-                h.append(list(mv) if rng.random() < 0.85 else rng.choice([['P', 0o600, b'foreign-part'.hex()], ['Q']]))
+                h.append(list(mv) if rng.random() < 0.85 else rng.choice([['P', 0o600, b'foreign-part'.hex()], ['Q'],
+                                                                          ['r', rng.randrange(5), rng.choice([0, 'x', errno.EPERM, errno.EXDEV])]]))
             if r >= 0.3 or not h:
                 k += 1
                 plan = []
                 if rng.random() < 0.3:
-                    plan = [[rng.randrange(0, 12), rng.choice([errno.ENOSPC, errno.EIO, errno.EPERM, 1001, 1002])]]
+                    plan = [[rng.randrange(0, 12), rng.choice([errno.ENOSPC, errno.EIO, errno.EPERM, 1001, 1002, 'A', errno.ENOSYS, errno.EXDEV])]]
                 h.append(self.sv(k, who=rng.choice([0, 0, 0, 1, 'n']), raises=(1 if rng.random() < 0.2 else 0), plan=plan))
         if h[-1][0] != 's':
             h.append(self.sv(k + 1))
@@ -718,8 +941,10 @@ class C05(Property):
             plan = []
             idxs = sorted(rng.sample(range(0, 14 + len(ops)), rng.choice([0, 1, 1, 2, 2, 3])))
             for k in idxs:
-                plan.append([k, rng.choice(['A', errno.ENOSPC, errno.EIO, errno.EPERM, errno.EEXIST, errno.EACCES, errno.EINTR,
-                                            1001, 1002, rng.choice(sorted(EXC_CODES))])])
+                plan.append([k, rng.choice(['A', 'A', errno.ENOSPC, errno.EIO, errno.EPERM, errno.EEXIST, errno.EACCES, errno.EINTR,
+                                            1001, 1002, rng.choice(sorted(EXC_CODES)),
+                                            rng.choice(errno_values(source_errnos() + TRY_ANOTHER_WAY)),
+                                            rng.choice(errno_values(ERRNO_CLASS_NAMES))])])
             c = dict(ow=rng.randrange(2), owp=rng.randrange(2), rm=rng.randrange(2), txt=rng.randrange(2),
                      perms=rng.choice([None, None, 0o600, 0o644, 0o640, 0o755, 0o444, 0, 0o200, 0o1666]),
                      umask=rng.choice([0o022, 0o077, 0, 0o027, 0o002]),
@@ -740,6 +965,10 @@ class C05(Property):
                     c['alt'] = {'perms': rng.choice([None, 0o600, 0o664]), 'ow': rng.randrange(2)}
             if rng.random() < 0.15:
                 c['cloexec'] = 1
+            if rng.random() < 0.2:
+                c[rng.choice(FORM_KEYS)] = 1
+                if rng.random() < 0.5:
+                    c.update(rng.choice([dict(kwform=2), dict(pathform=2), dict(pathform=3), dict(proto=1, api=1)]))
             yield c
 
     # ------------------------------------------------------------------ model line: the OBSERVED trace
@@ -748,7 +977,14 @@ class C05(Property):
             return False    # process-level cwd is not part of the model
         if case['txt'] and case.get('buf') == 0:
             return False    # Python itself refuses unbuffered text I/O (os.fdopen raises ValueError): oracle only
+        if self.pf_is_dest(case):
+            return False    # the part-file name IS the destination: one name, not two (oracle only)
         return True
+
+    @staticmethod
+    def pf_is_dest(case):
+        pf = case.get('pf')
+        return bool(pf) and os.path.normpath(os.path.join('/d', pf.replace('@DIR@', 'd'))) == os.path.normpath(os.path.join('/d', DEST))
 
     @staticmethod
     def _head(case):
@@ -801,6 +1037,8 @@ class C05(Property):
         for st, so in zip(case['hist'], obs['steps']):
             if st[0] == 's':
                 words.append(sv(so, list(st[1].get('ops') or []), st[1].get('raises', 0)))
+            elif st[0] == 'r':
+                continue        # somebody else's call on unrelated files: no step of the model
             elif st[0] in 'pP':
                 words.append('E/%s%d:%s' % (st[0], st[1], st[2]))
             elif st[0] in 'dQ':
@@ -852,7 +1090,7 @@ class C05(Property):
         obs = {}
         try:
             dest = os.path.join(d, DEST)
-            part = os.path.join(d, case.get('pf') or PART)
+            part = os.path.normpath(os.path.join(d, (case.get('pf') or PART).replace('@DIR@', os.path.basename(d))))
             for path, spec in ((dest, case['dest']), (part, case['part'])):
                 if spec is not None:
                     with open(path, 'wb') as f:
@@ -861,16 +1099,17 @@ class C05(Property):
                     if stat.S_IMODE(os.lstat(path).st_mode) != spec[0]:
                         obs['env'] = 'the scratch file system does not keep mode %o' % spec[0]
             os.umask(case['umask'])
-            kw = self.kwargs_of(case, case)
+            kw = self.kwargs_of(case, case, d)
             plan = {k: a for k, a in case['plan']}
             ops = ops_of(case)
             if case.get('hist') is not None:
                 self.run_history(fu, d, dest, part, case, obs)
                 return obs
             holder = {} if case.get('reuse') else None
+            forms = {k: case[k] for k in FORM_KEYS if case.get(k)}
             if case.get('reuse') == 2 and case['rm'] and case['part'] is None and not d2:
                 # the instance has been used before: a save whose block raises at once (it must leave everything as it was)
-                w = self.one_save(fu, d, dest, kw, [], 1, {}, case['txt'], holder=holder)
+                w = self.one_save(fu, d, dest, kw, [], 1, {}, case['txt'], holder=holder, forms=forms)
                 obs['warm'] = {k: w[k] for k in ('out', 'dest', 'part', 'extra')}
             if d2:
                 os.chdir(d)
@@ -878,9 +1117,9 @@ class C05(Property):
                 os.chdir(old_cwd)
             else:
                 obs['first'] = self.one_save(fu, d, dest, kw, ops, case['raises'], plan, case['txt'], holder=holder,
-                                              cloexec=case.get('cloexec'))
+                                              cloexec=case.get('cloexec'), forms=forms)
             obs['retry'] = self.one_save(fu, d, dest, kw, ['w' + op[1:] for op in ops if op[0] == 'w'], 0, {}, case['txt'],
-                                         holder=holder, cloexec=case.get('cloexec'))
+                                         holder=holder, cloexec=case.get('cloexec'), forms=forms)
         except CaseTimeout:
             obs['timeout'] = True
             obs.setdefault('first', {'out': 'exc:CaseTimeout', 'calls': 0, 'dest': None, 'part': None, 'extra': [], 'log': []})
@@ -899,17 +1138,22 @@ class C05(Property):
         return obs
 
     @staticmethod
-    def kwargs_of(cfg, case):
+    def kwargs_of(cfg, case, d=None):
         """keyword arguments of atomic_save for the configuration `cfg`; documented defaults are exercised by omitting the keyword"""
         kw = {}
+        kwform = case.get('kwform') or 0
         for name, val, default in (('overwrite', cfg['ow'], 1), ('overwrite_part', cfg['owp'], 0),
                                    ('rm_part_on_exc', cfg['rm'], 1), ('text_mode', cfg['txt'], 0)):
-            if val != default:
+            if kwform:
+                kw[name] = int(bool(val)) if kwform == 1 else Flag(val)
+            elif val != default:
                 kw[name] = bool(val)
         if cfg['perms'] is not None:
             kw['file_perms'] = cfg['perms']
         if case.get('pf'):
             kw['part_file'] = case['pf']       # custom part file name (always in the destination's directory)
+            if d and '@DIR@' in kw['part_file']:
+                kw['part_file'] = kw['part_file'].replace('@DIR@', os.path.basename(d))
         if case.get('buf') is not None:
             kw['buffering'] = case['buf']
         return kw
@@ -927,8 +1171,9 @@ class C05(Property):
         def save(who, ops, raises, plan):
             cfg = saver_cfg(case, who)
             start = {'dest': look(dest), 'part': look(part), 'umask': um}
-            o = self.one_save(fu, d, dest, self.kwargs_of(cfg, case), ops, raises, {k: a for k, a in plan}, cfg['txt'],
-                              holder=holders.get(who), cloexec=case.get('cloexec'))
+            o = self.one_save(fu, d, dest, self.kwargs_of(cfg, case, d), ops, raises, {k: a for k, a in plan}, cfg['txt'],
+                              holder=holders.get(who), cloexec=case.get('cloexec'),
+                              forms={k: case[k] for k in FORM_KEYS if case.get(k)})
             o['start'] = start
             o['cfg'] = cfg
             o['who'] = who
@@ -965,9 +1210,45 @@ class C05(Property):
             elif kind == 'Q':
                 if os.path.lexists(part):
                     os.unlink(part)
+            elif kind == 'r':
+                self.helper_call(fu, d, st[1], st[2])
             steps.append({'env': kind, 'dest': look(dest), 'part': look(part)})
 
-    def one_save(self, fu, d, dest, kw, ops, raises, plan, txt, rel=None, chdir_to=None, holder=None, cloexec=False):
+    @staticmethod
+    def helper_call(fu, d, form, fault):
+        """(round 5) the module-level helpers the saver publishes with, called by SOMEBODY ELSE on two unrelated files of the
+        same directory, in each argument form they accept - and failing (an injected errno at their first call, or the target
+        existing): whatever they learn or leave behind must not change what a later save does"""
+        a, b = os.path.join(d, 'other-a.tmp'), os.path.join(d, 'other-b.tmp')
+        with open(a, 'wb') as f:
+            f.write(b'unrelated')
+        if fault == 'x':
+            with open(b, 'wb') as f:
+                f.write(b'in the way')
+        spy = Spy5(b, plan={0: fault} if isinstance(fault, int) and fault else {})
+        try:
+            spy.install()
+            try:
+                if form == 0:
+                    fu.atomic_rename(a, b)
+                elif form == 1:
+                    fu.atomic_rename(a, b, True)
+                elif form == 2:
+                    fu.atomic_rename(src=a, dst=b, overwrite=False)
+                elif form == 3:
+                    fu.replace(a, b)
+                else:
+                    fu._atomic_rename(a, b, overwrite=True)
+            finally:
+                spy.uninstall()
+        except Exception:
+            pass
+        for p in (a, b):
+            if os.path.lexists(p):
+                os.unlink(p)
+
+    def one_save(self, fu, d, dest, kw, ops, raises, plan, txt, rel=None, chdir_to=None, holder=None, cloexec=False, forms=None):
+        forms = forms or {}
         partname = kw.get('part_file') or PART
         spy = Spy5(dest, plan=plan)
         spy.cloexec = bool(cloexec)
@@ -983,10 +1264,13 @@ class C05(Property):
                     if holder is not None and 'saver' in holder:
                         saver = holder['saver']          # the same AtomicSaver instance, used a second time
                     else:
-                        saver = fu.atomic_save(rel or dest, **kw)
+                        make = fu.AtomicSaver if forms.get('api') else fu.atomic_save
+                        saver = make(rel or dest_arg(dest, forms.get('pathform')), **kw)
                         if holder is not None:
                             holder['saver'] = saver
-                    with saver as f:
+
+                    def block(f):
+                        nonlocal closed_by_body
                         for op in ops:
                             if op[0] == 'w':
                                 b = bytes.fromhex(op[1:])
@@ -1000,6 +1284,19 @@ class C05(Property):
                             os.chdir(chdir_to)
                         if body_exc is not None:
                             raise body_exc
+                    if forms.get('proto'):
+                        # the documented use without `with`: setup(), write to part_file, __exit__ by hand
+                        saver.setup()
+                        try:
+                            block(saver.part_file)
+                        except BaseException as be:
+                            if not saver.__exit__(type(be), be, be.__traceback__):
+                                raise
+                        else:
+                            saver.__exit__(None, None, None)
+                    else:
+                        with saver as f:
+                            block(f)
                 finally:
                     spy.uninstall()
         except CaseTimeout:
@@ -1058,7 +1355,8 @@ class C05(Property):
             return s
         if case.get('hist') is not None:
             return ' | '.join([half(obs['first'])] + [
-                ('env dest=%s part=%s' % (f(so['dest']), f(so['part']))) if 'env' in so else half(so) for so in obs['steps']])
+                ('env dest=%s part=%s' % (f(so['dest']), f(so['part']))) if 'env' in so else half(so) for so in obs['steps']
+                if so.get('env') != 'r'])
         return half(obs['first']) + ' | ' + half(obs['retry'])
 
     def render_ref(self, obs):
@@ -1111,6 +1409,16 @@ class C05(Property):
                 return Failure('dest-changed', 'destination was %r, is %r after a save whose block raised' % (case['dest'], w['dest']))
             if w['part'] is not None:
                 return Failure('part-left', 'part file left behind after a save whose block raised (rm_part_on_exc on)')
+        if self.pf_is_dest(case):
+            self._nt = True
+            return self.judge_alias(case, obs)
+        if ((case.get('kwform') or case.get('pathform') == 1) and o['out'] not in ('ok', 'body') and not o['calls']
+                and o['dest'] == case['dest'] and o['part'] == case['part'] and not o['extra']):
+            # the documentation promises bool flags and a str path: an implementation may REFUSE ints / truth-value objects /
+            # a pathlib.Path outright (before it touches anything); what it must not do is misread them
+            st['form-refused'] = st.get('form-refused', 0) + 1
+            self._nt = True
+            return None
         f = self.judge_save(case, o)
         self._nt = not o['pub']
         if f is not None:
@@ -1119,13 +1427,44 @@ class C05(Property):
             return self.judge_history(case, obs)
         return self.judge_retry(case, obs)
 
+    def judge_alias(self, case, obs):
+        """`part_file` names the destination itself (as it stands, or through ./ or sub/../): there is no room for a part
+        file.  Whatever the saver does about it - refuse, or pick another name and complete - the destination is never
+        left created-empty / half-written / unlinked, nothing is left lying around, and a refusal is reported"""
+        new = new_hex(case)
+        prev = case['dest']
+        for which in ('first', 'retry'):
+            o = obs[which]
+            if o['extra']:
+                return Failure('part-left', 'part_file names the destination: files left behind: %r' % (o['extra'],))
+            if o['out'] == 'ok' and not (case['raises'] and which == 'first'):
+                if o['dest'] is None or o['dest'][1] != new:
+                    return Failure('wrong-content', 'part_file names the destination: the save reported success, destination %r, expected content %r' % (o['dest'], new))
+            elif o['out'] == 'ok':
+                return Failure('silent-failure', 'part_file names the destination: the block raised but no exception reached the caller')
+            elif o['dest'] != prev:
+                return Failure('dest-changed', 'part_file names the destination: destination was %r, is %r after a %s save (%s)' % (
+                    prev, o['dest'], 'refused / failed', o['out']))
+            prev = o['dest']
+        return None
+
     def judge_history(self, case, obs):
         """every save of a history is a save of its own: the property applies to it with the state it STARTS from
         (measured just before it: destination, part file, umask) - whatever the same saver object did or saw before"""
         k = 1
         told = ['save #1']
+        prev_dest, prev_part = obs['first']['dest'], obs['first']['part']
         for st, so in zip(case['hist'], obs['steps']):
+            if st[0] == 'r':
+                told.append('somebody calls %s on two unrelated files%s' % (
+                    ('atomic_rename(a, b)', 'atomic_rename(a, b, True)', 'atomic_rename(src=, dst=, overwrite=False)', 'replace(a, b)',
+                     '_atomic_rename(a, b, overwrite=True)')[st[1]], '' if not st[2] else ' (failing: %s)' % (st[2],)))
+                if so['dest'] != prev_dest or so['part'] != prev_part:
+                    return Failure('dest-changed', 'history [%s]: a helper call on unrelated files changed the destination / part file: %r -> %r, %r -> %r' % (
+                        '; '.join(told), prev_dest, so['dest'], prev_part, so['part']))
+                continue
             if st[0] != 's':
+                prev_dest, prev_part = so['dest'], so['part']
                 told.append('destination deleted' if st[0] == 'd' else 'part file removed' if st[0] == 'Q' else
                             ('chmod %o', 'destination replaced by another writer (mode %o)', 'umask %o',
                              'a part file (mode %o) appears')['cpuP'.index(st[0])] % st[1])
@@ -1147,6 +1486,7 @@ class C05(Property):
             told.append('save #%d (%s)' % (k, {0: 'the same AtomicSaver object', 1: 'a second long-lived AtomicSaver object',
                                                  'n': 'a fresh saver'}.get(who, who)))
             f = self.judge_save(sub, so)
+            prev_dest, prev_part = so['dest'], so['part']
             if not so['pub']:
                 self._nt = True
             if f is not None:
@@ -1180,9 +1520,18 @@ class C05(Property):
         refused = (not case['ow']) and (init_dest is not None or bool(appeared_before))
         trigger = bool(case['raises']) or bool(listed_fault) or refused
         if trigger and completed:
-            return Failure('completed-despite-failure', 'the save was published although %s' % (
-                'the block raised' if case['raises'] else 'call %r failed' % (listed_fault[:1],) if listed_fault else
-                'overwrite=False and the destination existed'))
+            why = []
+            if case['raises']:
+                why.append('the block raised')
+            if refused:
+                why.append('overwrite=False and the destination existed' + (
+                    '' if init_dest is not None else ' (created by another process before call #%d, %s the publishing call #%d: '
+                    'its content is lost)' % (appeared_before[-1], 'which is' if appeared_before[-1] == pub_index else 'before', pub_index)))
+            if listed_fault:
+                why.append('call %r failed' % (listed_fault[:1],))
+            # another writer's file silently replaced: the worst outcome, told apart so that the shrinker keeps the interleaving
+            lost = refused and init_dest is None
+            return Failure('clobbered' if lost else 'completed-despite-failure', 'the save was published although ' + ' and '.join(why))
         if not completed:
             if o['out'] == 'ok':
                 return Failure('silent-failure', 'the save did not complete but no exception reached the caller')
@@ -1285,7 +1634,7 @@ class C05(Property):
                     for k2, v in (('plan', []), ('raises', 0), ('who', 0)):
                         if st[1].get(k2):
                             yield dict(case, hist=h[:i] + [['s', dict(st[1], **{k2: v})]] + h[i + 1:])
-        for k in ('chdir', 'pf', 'buf', 'reuse', 'cloexec', 'alt'):
+        for k in ('chdir', 'pf', 'buf', 'reuse', 'cloexec', 'alt') + FORM_KEYS:
             if case.get(k) is not None:
                 yield {kk: v for kk, v in case.items() if kk != k}
 
